@@ -125,6 +125,35 @@ func c06domain(thorough bool) []refimpl.Rec {
 			out = append(out, r)
 		}
 	}
+	if thorough {
+		// every ordered pair of aux fields of the alphabet (the second re-tagged), minimal context
+		al := auxAlphabet()
+		for i := range al {
+			for j := range al {
+				b := al[j]
+				b.Tag = "Y" + b.Tag[1:]
+				r := minimal
+				r.Aux = []refimpl.AuxField{al[i], b}
+				out = append(out, r)
+			}
+		}
+		// the full product of the scalar dimensions, minimal context
+		for _, n := range []string{"r", "read/1", "a!~#", strings.Repeat("n", 254)} {
+			for _, f := range []int{0, 4, 0x1 | 0x2 | 0x40, 0x10, 0xfff, 0xffff} {
+				for _, rp := range [][2]int{{0, 100}, {1, 0}, {-1, -1}, {0, 1<<29 - 1}, {0, 1<<31 - 2}} {
+					for _, mt := range [][2]int{{-1, -1}, {0, 7}, {1, 4999}} {
+						for _, mq := range []int{0, 255} {
+							for _, tl := range []int{0, -5, math.MaxInt32, math.MinInt32} {
+								r := minimal
+								r.Name, r.Flags, r.RefID, r.Pos, r.MateRefID, r.MatePos, r.MapQ, r.TLen = n, f, rp[0], rp[1], mt[0], mt[1], mq, tl
+								out = append(out, r)
+							}
+						}
+					}
+				}
+			}
+		}
+	}
 	return out
 }
 
@@ -387,7 +416,7 @@ func c06reader(c *Ctx, input string, want []string, hdrLines int) {
 }
 
 func c06(c *Ctx) {
-	c.Rule = "records: a minimal and a maximal context record, each varied one dimension at a time: names (1 char, punctuation, 254 chars), flags (6 values), reference/position (5) x mate (none, same '=', other), MAPQ, template length (0, negative, extremes), CIGAR/sequence pairs (none, consistent with soft/hard clips, insertions/deletions, all 16 base codes, 2^28-1 length op) x qualities {absent, present incl. 0 and 93}, and aux fields: every single field of the C05 alphabet, integers at every narrowing boundary (-2^31 ... 2^32-1), pairs. For each: MarshalSAM (decimal and hex flags) == formatter written from SAM v1 section 1.4/1.5 (hex digit case ignored); UnmarshalSAM of the line re-formats identically with equal field values (numeric equality for integers); the line read by sam.Reader (LF, no final newline, CRLF, two lines) formats identically; the record written to BAM and read back formats to the same line; all records written to one BAM file and one SAM text, read back and KEPT, format identically after all reads. line reader: every input of 0-3 records x {LF, CRLF} x final newline {yes,no} x header {none, @HD+@SQ}: one record per line, in order, then io.EOF. Non-trivial: every record / input with at least one line."
+	c.Rule = "records: a minimal and a maximal context record, each varied one dimension at a time: names (1 char, punctuation, 254 chars), flags (6 values), reference/position (5) x mate (none, same '=', other), MAPQ, template length (0, negative, extremes), CIGAR/sequence pairs (none, consistent with soft/hard clips, insertions/deletions, all 16 base codes, 2^28-1 length op) x qualities {absent, present incl. 0 and 93}, and aux fields: every single field of the C05 alphabet, integers at every narrowing boundary (-2^31 ... 2^32-1), pairs (thorough: every ordered pair of aux fields, and the full product of the scalar dimensions name x flags x reference/position x mate x MAPQ x template length). For each: MarshalSAM (decimal and hex flags) == formatter written from SAM v1 section 1.4/1.5 (hex digit case ignored); UnmarshalSAM of the line re-formats identically with equal field values (numeric equality for integers); the line read by sam.Reader (LF, no final newline, CRLF, two lines) formats identically; the record written to BAM and read back formats to the same line; all records written to one BAM file and one SAM text, read back and KEPT, format identically after all reads. line reader: every input of 0-3 records x {LF, CRLF} x final newline {yes,no} x header {none, @HD+@SQ}: one record per line, in order, then io.EOF. Non-trivial: every record / input with at least one line."
 	if c.Replay != nil {
 		var cas c06case
 		if err := json.Unmarshal(c.Replay, &cas); err != nil {
